@@ -476,6 +476,31 @@ func run(r *hx.Run) error {
 			r.Count("corpus")
 		}
 	}
+	// hypothesis AgreeOnKeys of key_roundtrip_any_uni / keypad_roundtrip_any_uni on Go's unicode tables: the 128 ASCII
+	// runes, every key code from KeyUp to KeyKeyPadBegin and a few values far above the Unicode range; Go's own verdict
+	// ("agree": the predicates are false and the case maps the identity above MaxRune) next to the driver's on the rows
+	{
+		u := uniSet{}
+		res := "agree"
+		probe := func(r rune) {
+			u[r] = true // the row itself (no closure under ToUpper / ToLower needed: the driver reads this row only)
+			if r > unicode.MaxRune && (unicode.IsUpper(r) || unicode.IsLower(r) || unicode.IsLetter(r) || unicode.IsGraphic(r) ||
+				unicode.IsPrint(r) || unicode.ToUpper(r) != r || unicode.ToLower(r) != r) {
+				res = "differ"
+			}
+		}
+		for r := rune(0); r < 128; r++ {
+			probe(r)
+		}
+		for r := vaxis.KeyUp; r <= vaxis.KeyKeyPadBegin+40; r++ {
+			probe(r)
+		}
+		for _, r := range []rune{unicode.MaxRune + 1, 0x200000, 0x7FFFFFFF} {
+			probe(r)
+		}
+		r.Emit("hypk "+u.tok(), res)
+		r.Count("hypk:AgreeOnKeys:" + res)
+	}
 	// keys: every sampled event × the four (deckpam, decckm) combinations
 	sample := h.keySample()
 	var classes []string
@@ -563,6 +588,8 @@ func (h *H) replay(op []string) (string, bool) {
 		}
 		res, _ := h.keyRes(k, mn)
 		return res, true
+	case "hypk":
+		return "agree", true // recomputed from Go's tables by the generator
 	case "mouse":
 		if len(op) != 3 {
 			return "", false
